@@ -219,7 +219,7 @@ func since2015(tm time.Time) uint64 {
 // TestC06Writers: keyed writers emit frames that verify by the formula.
 func TestC06Writers(t *testing.T) {
 	rec := evid.New(t, "C06", "frame.Writer.WriteMessage with OutKey and streamwriter.Writer with Key write generated message sequences; each emitted frame is parsed by the reference: signed flag, configured link id, timestamp within the wall-clock bracket of the call (10us units since 2015-01-01 UTC), signature == SHA-256 formula; non-trivial = every case; distinct by hash of emitted bytes")
-	rec.Require("frame.Writer", "streamwriter.Writer", "frame.ReadWriter")
+	rec.Require("frame.Writer", "streamwriter.Writer", "frame.ReadWriter", "raw-message-ending-in-zero")
 	dpool := pool(t)
 	evid.Check(t, rec, evid.N(6000, 30000), func(t *rapid.T) {
 		readBufSize = 512
@@ -261,8 +261,27 @@ func TestC06Writers(t *testing.T) {
 		n := rapid.IntRange(1, 6).Draw(t, "nmsg")
 		var prev uint64
 		for i := 0; i < n; i++ {
-			lay := di.layouts[di.ids[rapid.IntRange(0, len(di.ids)-1).Draw(t, "msgidx")]]
+			msgID := di.ids[rapid.IntRange(0, len(di.ids)-1).Draw(t, "msgidx")]
+			lay := di.layouts[msgID]
 			val := gen.Value(t, lay).(message.Message)
+			// a third of the messages are handed over already encoded (a raw message with an id the dialect knows),
+			// in canonical form, untruncated, or with further zero bytes at the end
+			rawForm := rapid.SampledFrom([]string{"", "", "", "", "raw-canonical", "raw-untruncated", "raw-zero-padded"}).Draw(t, "raw_form")
+			if rawForm != "" {
+				pl := lay.Encode(val, true)
+				switch rawForm {
+				case "raw-untruncated":
+					pl = lay.EncodeFull(val, true)
+				case "raw-zero-padded":
+					pl = append(append([]byte{}, pl...), make([]byte, rapid.IntRange(1, 3).Draw(t, "pad"))...)
+				}
+				if len(pl) <= 255 {
+					val = &message.MessageRaw{ID: msgID, Payload: pl}
+					if len(pl) > 1 && pl[len(pl)-1] == 0 {
+						rec.Class("raw-message-ending-in-zero", 1)
+					}
+				}
+			}
 			before := since2015(time.Now())
 			ncalls := len(w.calls)
 			if err := write(val); err != nil {
